@@ -218,6 +218,23 @@ def _ptoks(s):
     return [] if s in ("_", "") else s.split(",")
 
 
+def _spec_toks(spec):
+    """symbol tokens of an alphabet spec `L:..` / `G:..` / `R:count:mod:a:b` (integers (a*j+b) % mod, j < count)"""
+    if spec.startswith("R:"):
+        count, mod, a, b = (int(x) for x in spec[2:].split(":"))
+        return ["i" + str((a * j + b) % mod) for j in range(count)]
+    return _ptoks(spec[2:])
+
+
+def _index(tok):
+    """`<int>` -> Python int, `<int>:<dtype>` -> numpy integer scalar of that dtype"""
+    if ":" in tok:
+        import numpy as np
+        v, dt = tok.split(":")
+        return {"ip": np.intp, **{k: getattr(np, NPDT[k]) for k in NPDT}}[dt](int(v))
+    return int(tok)
+
+
 def _pints(s):
     return [int(x) for x in _ptoks(s)]
 
@@ -262,7 +279,7 @@ class _A:
     def __init__(self, spec):
         import biotite.sequence as seq
         self.letter = spec.startswith("L:")
-        self.toks = _ptoks(spec[2:])
+        self.toks = _spec_toks(spec)
         if self.letter:
             self.alph = seq.LetterAlphabet([bytes([int(t)]) for t in self.toks])
         else:
@@ -410,9 +427,9 @@ def run_impl(case):
             if op == "s_valid":
                 return "ok " + ("true" if s.is_valid() else "false")
             if op == "s_get":
-                return "ok " + a.show1(s[int(w[2])])
+                return "ok " + a.show1(s[_index(w[2])])
             if op == "s_set":
-                s[int(w[2])] = a.sym(w[3])
+                s[_index(w[2])] = a.sym(w[3])
                 return "ok " + _seq_tokens_safe((s, a))
             if op == "s_slice":
                 lo = None if w[2] == "-" else int(w[2])
@@ -677,6 +694,13 @@ def _case_sequence(rng):
             if all(t in _spec_syms(sp) for t in syms):
                 regs.append((sp, n))
 
+    def typed(v):
+        """index as a Python int or as a numpy integer scalar of some dtype that can hold it"""
+        if rng.random() < 0.45:
+            return str(v)
+        dts = [d for d in ("i64", "i32", "i8", "ip", "u8", "u64", "i16", "u32") if d == "ip" or DT_RANGE[d][0] <= v <= DT_RANGE[d][1]]
+        return f"{v}:{rng.choice(dts)}"
+
     new()
     for _ in range(rng.randint(4, 10)):
         if not regs:
@@ -698,11 +722,11 @@ def _case_sequence(rng):
         elif r < 0.20:
             ops.append(f"s_str {i}")
         elif r < 0.30:
-            ops.append(f"s_get {i} {rng.randint(-n - 2, n + 1)}")
+            ops.append(f"s_get {i} {typed(rng.randint(-n - 2, n + 1))}")
         elif r < 0.42:
             if i in frozen:
                 continue
-            ops.append(f"s_set {i} {rng.randint(-n - 1, n)} {pick()}")
+            ops.append(f"s_set {i} {typed(rng.randint(-n - 1, n))} {pick()}")
         elif r < 0.52:
             a = rng.choice(["-", str(rng.randint(-n - 2, n + 2))])
             b = rng.choice(["-", str(rng.randint(-n - 2, n + 2))])
@@ -772,6 +796,68 @@ def _case_add(rng):
             ops += [f"s_str {k}", f"s_eq {k} {i}"]
             k += 1
     return {"kind": "sequence-add", "ops": ops}
+
+
+def _coprime(rng, n):
+    import math
+    while True:
+        a = rng.randrange(1, max(n, 2))
+        if math.gcd(a, n) == 1:
+            return a
+
+
+def _case_mapper_big(rng):
+    """AlphabetMapper across the dtype size classes of the lookup table (target codes > 255, > 65535)"""
+    n = rng.choice([257, 258, 300, 300, 1000, 4096, 65537, 70000])
+    m_max = 300 if n <= 4096 else 40
+    tgt = f"R:{n}:{n}:{_coprime(rng, n)}:{rng.randrange(n)}"
+    ops = []
+    for _ in range(rng.randint(1, 2)):
+        m = rng.choice([1, 2, 5, 17, 100, 255, 256, 257, 300])
+        m = min(m, m_max)
+        r = rng.random()
+        if r < 0.7:        # a subset of the target in another order: mapping necessary, codes up to n-1
+            src = f"R:{m}:{n}:{_coprime(rng, n)}:{rng.randrange(n)}"
+        elif r < 0.85:     # a prefix of the target: no mapping necessary
+            _, _, a, b = tgt[2:].split(":")
+            src = f"R:{m}:{n}:{a}:{b}"
+        else:              # the rejecting direction: a big source into a small target that lacks symbols
+            src = f"R:{rng.choice([257, 300])}:300:1:0"
+            t = rng.randint(3, 200)
+            ops.append(f"map {src} R:{t}:{t}:{_coprime(rng, t)}:0 0,1,2")
+            continue
+        cnt = int(src.split(":")[1])
+        codes = [rng.randrange(cnt) for _ in range(rng.choice([1, 4, 9]))] + [cnt - 1, 0]
+        ops.append(f"map {src} {tgt} {_ints(codes)}")
+        if rng.random() < 0.3:
+            ops.append(f"extends {tgt} {src}")
+    return {"kind": "mapper-big", "ops": ops}
+
+
+def _case_kmer_illegal(rng):
+    """create_kmers with exactly one illegal code (== len, len+1, huge) at every position"""
+    n = rng.choice([1, 2, 4, 4, 5, 24, 200])
+    k = rng.randint(2, 4)
+    dt = rng.choice([d for d in ("u8", "u16", "u32", "u64") if n + 1 <= DT_RANGE[d][1]])
+    if rng.random() < 0.6:
+        sp, span = "-", k
+    else:
+        span = k + rng.randint(1, 3)
+        pos = sorted(rng.sample(range(span), k))
+        pos[-1] = span - 1
+        pos = sorted(set(pos))
+        while len(pos) < k:
+            pos = sorted(set(pos + [rng.randrange(span)]))
+        sp = _ints(pos)
+    L = span + rng.randint(1, 4)
+    base = [rng.randrange(n) for _ in range(L)]
+    ops = [f"k_kmers {n} {k} {sp} {dt} {_ints(base)}"]
+    for p in range(L):
+        for bad in (n, rng.choice([n + 1, DT_RANGE[dt][1] if dt != "u64" else 2 ** 40])):
+            codes = list(base)
+            codes[p] = bad
+            ops.append(f"k_kmers {n} {k} {sp} {dt} {_ints(codes)}")
+    return {"kind": "kmer-illegal", "ops": ops}
 
 
 def _case_eq(rng):
@@ -978,8 +1064,8 @@ def _case_codon(rng, table_id=None):
 
 def cases(rng, tier):
     scale = 1 if tier == "quick" else 12
-    plan = [(_case_alphabet, 110), (_case_bytes, 16), (_case_newalph, 12), (_case_mapper, 50),
-            (_case_sequence, 130), (_case_add, 30), (_case_eq, 40), (_case_kmer, 110), (_case_codon, 110), (_case_derive, 50)]
+    plan = [(_case_alphabet, 110), (_case_bytes, 16), (_case_newalph, 12), (_case_mapper, 50), (_case_mapper_big, 12),
+            (_case_sequence, 130), (_case_add, 30), (_case_eq, 40), (_case_kmer, 110), (_case_kmer_illegal, 20), (_case_codon, 110), (_case_derive, 50)]
     for fn, cnt in plan:
         for _ in range(cnt * scale):
             yield fn(rng)
@@ -1012,6 +1098,11 @@ def corpus():
                                   "c_tr 0 1 TTGAAATAGATGC", "c_tr 0 0 ATGATGTAA", "c_tr 0 0 _", "c_tr 0 0 AT"]},
         {"kind": "codon-derive", "ops": ["c_default", "c_show", "c_derive_map TGA=W,AGA=*", "c_show2", "c_show", "c_tr 1 0 ATGTGAAGATAA",
                                          "c_tr2 1 0 ATGTGAAGATAA", "c_derive_starts TTG,CTG", "c_show2", "c_show", "c_tr 0 0 TTGATGTGA", "c_tr2 0 0 TTGATGTGA"]},
+        {"kind": "sequence-nuc", "ops": ["s_nuc 65,67,71,84", "s_set 0 1:i64 84", "s_set 0 -1:ip 65", "s_set 0 2:u8 71", "s_get 0 1:i64", "s_get 0 -4:i8",
+                                         "s_get 0 4:u64", "s_set 0 4:i32 65", "s_str 0"]},
+        {"kind": "mapper-big", "ops": ["map R:3:300:7:290 R:300:300:1:0 0,1,2", "map R:2:70000:1:69998 R:70000:70000:1:0 1,0", "map R:300:300:1:0 R:10:10:1:0 0"]},
+        {"kind": "kmer-illegal", "ops": ["k_kmers 4 3 - u8 0,1,2,4,3", "k_kmers 4 3 - u8 0,1,2,3,4", "k_kmers 4 3 - u8 4,1,2,3,3", "k_kmers 4 3 - u8 0,1,2,5,3",
+                                         "k_kmers 4 3 0,2,3 u8 0,1,2,3,4"]},
         {"kind": "sequence-eq", "ops": ["s_new L:65,67,71,84 65,65,67,71,84", "s_new L:84,71,67,65 84,84,71,67,65", "s_code 0", "s_code 1",
                                         "s_eq 0 1", "s_eq 1 0", "s_eq 0 0", "s_nuc 65,65,67,71,84", "s_eq 0 2", "s_eq 2 0"]},
     ]
@@ -1105,7 +1196,7 @@ def reference(ops):
     table2 = [None]   # the derived table
 
     def alph_of(spec):
-        return spec.startswith("L:"), _ptoks(spec[2:])
+        return spec.startswith("L:"), _spec_toks(spec)
 
     for line in ops:
         w = line.split()
@@ -1143,10 +1234,11 @@ def reference(ops):
             _, src = alph_of(w[1])
             _, tgt = alph_of(w[2])
             codes = _pints(w[3])
-            if not all(s in tgt for s in src):
+            tpos = {t: i for i, t in enumerate(tgt)}
+            if not all(s in tpos for s in src):
                 e = ("anyerr",) if tgt[:len(src)] != src else None
             elif all(0 <= c < len(src) for c in codes):
-                e = ("eq", "ok " + _ints(tgt.index(src[c]) for c in codes))      # the symbols are preserved
+                e = ("eq", "ok " + _ints(tpos[src[c]] for c in codes))      # the symbols are preserved
             else:
                 e = None
         elif op == "s_new":
@@ -1220,10 +1312,10 @@ def reference(ops):
             elif op == "s_valid":
                 e = ("eq", "ok true")
             elif op == "s_get":
-                k = _py_index(len(r["syms"]), int(w[2]))
+                k = _py_index(len(r["syms"]), int(w[2].split(":")[0]))
                 e = ("eq", "ok " + r["syms"][k]) if k is not None else ("err", {"IndexError"})
             elif op == "s_set":
-                k = _py_index(len(r["syms"]), int(w[2]))
+                k = _py_index(len(r["syms"]), int(w[2].split(":")[0]))
                 if w[3] not in r["alph"]:
                     e = ("err", {"AlphabetError"} | ({"IndexError"} if k is None else set()))
                 elif k is None:
